@@ -19,7 +19,7 @@ EXTENDS Naturals, Integers, Sequences, FiniteSets, TLC
 
 CONSTANTS L, G0, Globals, Variant, MaxSteps      \* G0: the configured global limit at the start; Globals: the values it is changed to (all >= L)
 Huge == 1000000
-Quotas == {-300, -1, 0, 1, L, L + 1, G0, G0 + 1, 25 * G0}
+Quotas == {-300, -1, 0, 1, L, L + 1, G0, G0 + 1, 25 * G0, 2147483647, -2147483647}        \* (int32 extremes: conversions to uint32 / float)
 VARIABLES ready, unavail, eff, last, hist, G, lastq
 vars == <<ready, unavail, eff, last, hist, G, lastq>>
 Clamp(q, lo, hi) == IF q < lo THEN lo ELSE IF q > hi THEN hi ELSE q
